@@ -17,7 +17,7 @@ L = {
  'C03': ('Theorems: every element-adding operation at 10000 elements -> ParserError and no state change; push grows by exactly one; concat_doubles (D10). '
          'Tie: MAX_ARRAY_SIZE. Correspondence: container op sequences around the cap; monitor: every adder form incl. multi-step targets on full containers.',
          'global bound outside concat / str->list conversions pending; findings D10, D11.'),
- 'C04': ('Theorems: fix_digits, mul_is_decimal, pow_is_decimal, dec_ops_fix_digits, sub_div_digits, min/max return an argument, abs <= 28; D12/D13 witnesses. '
+ 'C04': ('Theorems: fix_digits, mul_is_decimal, pow_is_decimal, dec_ops_fix_digits, sub_div_digits, min/max return an argument, abs <= 28, sum_of_decimals_digits, round_digits_arg; D12/D13 witnesses. '
          'Correspondence: numeric slice over host ints/bools/Decimals; monitor: digit count of every arithmetic node and numeric builtin.',
          'inexact Decimal ** is an explicit `unmodelled` outcome; findings D12, D13, D16.'),
  'C05': ('PARTIAL. Theorems: every engine request of match/match_groups/match_all carries timeout = 50000 us; one engine call per builtin call. Critical tie: '
